@@ -12,6 +12,7 @@ mod c08;
 mod c12;
 mod c13;
 mod c14;
+mod c17;
 mod inputs;
 mod loader;
 mod engine;
@@ -208,6 +209,7 @@ fn main() {
                         "C14" => c14::run(&ctx),
                         "C07" => c07::run(&ctx),
                         "C13" => c13::run(&ctx),
+                        "C17" => c17::run(&ctx),
                         "C18" => c18::run(&ctx),
                         "C19" => c19::run(&ctx),
                         _ => usage(),
